@@ -199,6 +199,29 @@ fn rounds<'a>(rep: &mut Report, sub: &'static str, case: u64, kind: Kind, terms:
             None => read_state(terms[i]),
         }).collect();
         let before: Vec<Option<Datum<State>>> = (0..n).map(|i| pending[i].or_else(|| own_state(terms[i]))).collect();
+        // the reads themselves (the property's last mechanism: terminal read = mean of own and connected terminal's state,
+        // stamped with the newer of the two): checked here against the slots this monitor wrote, so that a wrong read
+        // cannot hide behind "the projection of whatever was read"
+        for i in 0..n {
+            if pending[i].is_some() { continue; }
+            let (o, e) = (own_state(terms[i]), if conn[i] { own_state(&ext[i]) } else { None });
+            let want: Option<(i64, [f64; 3])> = match (o, e) {
+                (None, None) => None,
+                (Some(x), None) | (None, Some(x)) => Some((x.time.0, [x.value.position as f64, x.value.velocity as f64, x.value.acceleration as f64])),
+                (Some(x), Some(y)) => Some((x.time.0.max(y.time.0), [(x.value.position as f64 + y.value.position as f64) / 2.0, (x.value.velocity as f64 + y.value.velocity as f64) / 2.0, (x.value.acceleration as f64 + y.value.acceleration as f64) / 2.0])),
+            };
+            rep.eval();
+            rep.tally("terminal_reads_checked_against_written_slots");
+            let ok = match (&reads[i], &want) {
+                (None, None) => true,
+                (Some(r), Some((t, v))) => r.t == *t && (0..3).all(|k| ulp_dist(r.s[k] as f32, v[k] as f32) <= 2),
+                _ => false,
+            };
+            if !ok {
+                rep.violation(&format!("C08/terminal-read/{}", name), sub, case, format!("round {} terminal {}: own slot {:?}, connected terminal's slot {:?}, read {:?}, expected (newest stamp, mean) {:?}; log={}", round, i, o, e, reads[i], want, log));
+                return;
+            }
+        }
         let mask: u32 = reads.iter().enumerate().map(|(i, r)| (r.is_some() as u32) << i).sum();
         rep.tally(&format!("presence/{}/{:b}", name, mask));
         rep.distinct((name.clone(), mask, round.min(2), consistent_round));
